@@ -7,10 +7,10 @@ dst='/verif/seeded'
 res={}
 for f in sorted(glob.glob('/tmp/mlab_r*.txt'), key=lambda x:int(re.search(r'r(\d+)',x).group(1))):
     for l in open(f):
-        m=re.match(r'(C\d+/[a-t]) (C\d+) rc=(\d+) ?(.*)',l.strip())
+        m=re.match(r'(C\d+/[a-v]) (C\d+) rc=(\d+) ?(.*)',l.strip())
         if m: res[(m.group(1),m.group(2))]=(int(m.group(3)),m.group(4))
 rows=[]
-for src in ['/tmp/seedout','/tmp/seedout2','/tmp/seedout3','/tmp/seedout5','/tmp/seedout6','/tmp/seedout7','/tmp/seedout8','/tmp/seedout9','/tmp/seedout10','/tmp/seedout11']:
+for src in ['/tmp/seedout','/tmp/seedout2','/tmp/seedout3','/tmp/seedout5','/tmp/seedout6','/tmp/seedout7','/tmp/seedout8','/tmp/seedout9','/tmp/seedout10','/tmp/seedout11','/tmp/seedout12']:
     if not os.path.exists(f'{src}/confirm.json'): continue
     conf=json.load(open(f'{src}/confirm.json'))
     for d in sorted(glob.glob(f'{src}/C*/*/')):
@@ -30,7 +30,7 @@ for src in ['/tmp/seedout','/tmp/seedout2','/tmp/seedout3','/tmp/seedout5','/tmp
         oracle=re.search(r'\[([\w.]+)\]',line)
         others={p2:(r[0], (re.search(r'\[([\w.]+)\]',r[1]) or [None,None])[1] if r[1] else None) for (k2,p2),r in res.items() if k2==key and p2!=prop}
         meta={
-          "id": f"{prop}-{var}", "round": 1 if var in 'ab' else (2 if var in 'cd' else (3 if var in 'ef' else (4 if var in 'gh' else (5 if var in 'ij' else (6 if var in 'kl' else (7 if var in 'mn' else (8 if var in 'op' else (9 if var in 'qr' else 10)))))))),
+          "id": f"{prop}-{var}", "round": 1 if var in 'ab' else (2 if var in 'cd' else (3 if var in 'ef' else (4 if var in 'gh' else (5 if var in 'ij' else (6 if var in 'kl' else (7 if var in 'mn' else (8 if var in 'op' else (9 if var in 'qr' else (10 if var in 'st' else 11))))))))),
           "breaks_property": prop,
           "summary": am.get("summary"), "needs_to_manifest": am.get("needs_to_manifest"), "files_changed": am.get("files_changed"),
           "origin": "written by an independent sub-agent that was given only the property text and a scratch worktree of /repo (nothing from /verif)",
@@ -45,8 +45,8 @@ for src in ['/tmp/seedout','/tmp/seedout2','/tmp/seedout3','/tmp/seedout5','/tmp
 print(len(rows),'changes;', sum(1 for m in rows if m['my_check']['caught']),'caught by the check of their own property')
 # DESIGN §18 table
 out=["", "## 18. Seeded changes: which checks catch which", "",
-f"{len(rows)} breaking changes were written by independent sub-agents in ten rounds (rounds 2-10 asked for",
-"subtler changes and listed the ideas already tried; 10, 9, 6, 8, 8, 9, 10, 9 and 10 properties). Each agent was given only one property's text and a scratch worktree of `/repo`",
+f"{len(rows)} breaking changes were written by independent sub-agents in eleven rounds (rounds 2-11 asked for",
+"subtler changes and listed the ideas already tried; 10, 9, 6, 8, 8, 9, 10, 9, 10 and 9 properties). Each agent was given only one property's text and a scratch worktree of `/repo`",
 "(nothing from `/verif`). Each change was kept only after I confirmed, in a scratch worktree of `/repo` HEAD",
 "(`tools/confirm_seeded.py`): it applies, compiles, all 65 existing tests pass with it, its demonstration",
 "fails with it and passes without it. Four round-1 patches touched lines changed by a `fix:` commit and",
